@@ -1200,7 +1200,17 @@ func regenerate() (tb *layouts.Table, note string, broken string) {
 func main() {
 	genOut := flag.String("gen", "", "only regenerate the layout table into this file and exit")
 	maxCases := flag.Int("cases", 0, "override the number of cases")
+	printShapes := flag.Bool("print-shapes", false, "print the Coq definitions of the stored value shapes (Shapes.v) and exit")
 	c := hx.NewCtx("C07")
+	if *printShapes {
+		txt, err := renderShapes()
+		if err != nil {
+			fmt.Fprintln(os.Stderr, "c07 --print-shapes:", err)
+			os.Exit(1)
+		}
+		fmt.Print(txt)
+		return
+	}
 	if *genOut != "" {
 		tb, err := layouts.Build(repoPath())
 		if err != nil {
@@ -1229,7 +1239,7 @@ func main() {
 	defer or.Close()
 
 	nCases := 160
-	budget := 52 * time.Second // of harness wall time, suites included
+	budget := 58 * time.Second // of harness wall time, suites included
 	if c.Thorough() {
 		nCases, budget = 6000, 20*time.Minute
 	}
@@ -1253,6 +1263,16 @@ func main() {
 				c.Extra["decoder_limit_probe"] = limitProbe(c, lim)
 			}
 			c.Finish("replay of the decoder limit probe")
+		}
+		if strings.HasPrefix(only.Accessor, "cbor:") {
+			tie := newCborTie(c, timedOracle{or}, only.Seed)
+			lim, _ := layouts.DecoderLimits(repoPath())
+			tie.suite(lim, 150)
+			for idx := 0; idx < 160; idx++ {
+				tie.ofCase(genCase(only.Seed, idx, false, c.Hist), hx.NewRNG(only.Seed^uint64(idx)*31+7))
+			}
+			tie.finish(time.Now())
+			c.Finish("replay of the CBOR tie")
 		}
 		if only.Accessor == "layout-obligation" || only.Accessor == "translator" {
 			nCases = 40
@@ -1371,6 +1391,16 @@ func main() {
 		c.Extra["decoder_limit_probe"] = limitProbe(c, limits)
 	}
 
+	// ---- the CBOR codec itself against the model (Cbor.v), in every run ----
+	tCbor := time.Now()
+	tie := newCborTie(c, timedOracle{or}, seed)
+	nItems := 150
+	if c.Thorough() {
+		nItems = 3000
+	}
+	tie.suite(limits, nItems)
+	c.Extra["cbor_suite_seconds"] = time.Since(tCbor).Seconds()
+
 	done := 0
 	for idx := 0; idx < nCases && time.Since(start) < budget; idx++ {
 		cs := genCase(seed, idx, c.Thorough(), c.Hist)
@@ -1387,6 +1417,7 @@ func main() {
 		if len(fs) > 0 {
 			report(cs, idx, "memory", useBatch, fs)
 		}
+		tie.ofCase(cs, hx.NewRNG(seed^uint64(idx)*31+7))
 		if idx%4 == 0 || c.Thorough() {
 			if fs := runOne(cs, idx, "pebblev2", useBatch, false); len(fs) > 0 {
 				report(cs, idx, "pebblev2", useBatch, fs)
@@ -1420,6 +1451,7 @@ func main() {
 		}
 		done++
 	}
+	tie.finish(tCbor)
 	c.Extra["cases_run"] = done
 	c.Extra["oracle_seconds"] = oracleTime.Seconds()
 	c.Extra["checks_per_backend"] = perAccessor
@@ -1432,7 +1464,7 @@ func main() {
 		if strings.HasPrefix(broken, "translator:") {
 			class = "translator"
 		}
-		c.Violation(class, broken, Replay{Seed: seed, Case: -1, OnlyBlock: -1, OnlyTx: -1, Accessor: class, Detail: broken}, c.NViolations() == 0)
+		c.Violation(class, broken, Replay{Seed: seed, Case: -1, OnlyBlock: -1, OnlyTx: -1, Accessor: class, Detail: broken}, c.NViolations()-tie.noInputReported == 0)
 	}
 	c.Finish("every accessor value = stored value (canonical deep dump) on memory and pebblev2; partial decoders = full decoder per field on every record; decode(encode v) = v and stable; raw block-transactions entry = model's index header ++ data under the model's key; model reads of the real entry = real accessors incl. out-of-range; key byte order = numeric order")
 }
